@@ -8,15 +8,17 @@ counter through `AsyncSession.close` and the injected `on_close_coro`).  One tra
 thread; which enabled transition happens next is not determined (any interleaving).  Import-free, executable.
 
 Source lines (src/nasdaq_protocols):
-  common/sync_executor.py   execute 39-53, execute_sync 55-70, stop 72-79, join 81-85, _must_be_active 90-92
-  soup/session.py           SoupClientSessionSync 293-344 (on_close_coro 310-314, receive 317, send_msg 320,
-                            send_unseq_data 326, logout 329-334, close 336-341)
+  common/sync_executor.py   execute, execute_sync, stop, join, _wait_for (result in slices; StateError once the thread
+                            is gone), _must_be_active
+  soup/session.py           SoupClientSessionSync (on_close_coro — takes NO lock —, receive, send_msg, send_unseq_data,
+                            logout/close = _shutdown: lock; if not set: try execute_sync except StateError: pass; wait; join)
+  (state of /repo after the fixes 86c1975, 1753c2b, 564383d)
   common/session.py         initiate_close 245-256, close 258-273
   common/message_queue.py   get / get_nowait / _blocking_read / stop   (single `_recv_task` slot)
 
-`close_lock` is an RLock; no thread ever acquires it twice (callers take it once per close()/logout(), the loop thread
-once in on_close_coro, and the bridged coroutine runs on the *loop* thread, not on the caller that holds the lock), so
-the model keeps only the owner — `C20_lock_discipline` shows an acquire is attempted only by a thread that does not hold it.
+`close_lock` is an RLock; only caller threads take it (once per close()/logout(); the bridged coroutine runs on the
+*loop* thread, which never touches the lock), no thread acquires it twice, so the model keeps only the owner —
+`C20_lock_discipline` shows an acquire is attempted only by a thread that does not hold it.
 The peer script is what the peer will still do; after EndOfSession / disconnect / having received a LogoutRequest it does
 nothing more.
 
@@ -31,7 +33,7 @@ namespace NasdaqModel.SyncFacade
 inductive Op where
   | recv        -- SoupClientSessionSync.receive()            = bridge.execute(session.receive_msg())
   | send        -- send_msg / send_debug                      = bridge.execute_sync(session.send_msg, m)
-  | sendUnseq   -- send_unseq_data: calls the session directly on the caller thread (no executor involved)
+  | sendUnseq   -- send_unseq_data                            = bridge.execute_sync(session.send_unseq_data, d)
   | close       -- close()
   | logout      -- logout()
   | execTimed   -- bridge.execute(<coroutine that does not finish>, timeout=t): the executor's timeout path
@@ -72,9 +74,8 @@ inductive Pc where
   | chk1      -- execute_sync: `self._must_be_active()`
   | chk2      -- execute: `self._must_be_active()`
   | submit    -- `asyncio.run_coroutine_threadsafe(...)`
-  | wait      -- `future.result(timeout)`
-  | rel       -- leaving the `with` block normally
-  | relExc    -- leaving the `with` block with StateError propagating
+  | wait      -- `self._wait_for(future, timeout)`: result in slices, StateError when the thread is gone
+  | rel       -- leaving the `with` block (a StateError of execute_sync was swallowed inside it)
   | waitEvt   -- `self.closed_event.wait()`
   | join      -- `self.bridge.join()`
   deriving DecidableEq, Repr, Inhabited
@@ -89,11 +90,9 @@ inductive ClosePc where
   | idle         -- nothing closing
   | spawned      -- `AsyncSession.close()` invoked on the loop (closing task created / reader saw the end), not begun
   | begun        -- `_closed = True`, queue/monitors/reader stopped, transport closed; about to call on_close_coro
-  | wantLock     -- on_close_coro: `with self.close_lock` — the loop THREAD is blocked until the lock is free
-  | haveLock     -- inside the lock, before `if not self.closed_event.is_set()`
+  | inCb         -- inside on_close_coro (no await in it), at `if not self.closed_event.is_set()`
   | stopCalled   -- `self.bridge.stop(join=False)` done (loop.stop scheduled), before `closed_event.set()`
-  | eventSet     -- `closed_event.set()` done, before leaving the `with`
-  | done         -- on_close_coro returned
+  | done         -- `closed_event.set()` done, on_close_coro returned
   deriving DecidableEq, Repr, Inhabited
 
 inductive PeerEv where
@@ -160,7 +159,7 @@ def minBlocked : List Caller → Option (Nat × Nat)
 
 /-- the loop thread is inside `on_close_coro` (which has no await): it runs nothing else -/
 def ClosePc.busy : ClosePc → Bool
-  | .wantLock | .haveLock | .stopCalled | .eventSet => true
+  | .inCb | .stopCalled => true
   | _ => false
 
 /-- `AsyncSession._closed` -/
@@ -194,8 +193,7 @@ def callerStep (lock : Option Tid) (closedEvent loopAlive : Bool) (i : Nat) (c :
     | .idle =>
       match op with
       | .recv | .execTimed => some ({ c with pc := .chk2 }, lock)
-      | .send => some ({ c with pc := .chk1 }, lock)
-      | .sendUnseq => some (finish c op .ok, lock)          -- session.send_unseq_data: transport.write never raises
+      | .send | .sendUnseq => some ({ c with pc := .chk1 }, lock)
       | .close | .logout => some ({ c with pc := .acq }, lock)
     | .acq =>
       match lock with
@@ -205,11 +203,11 @@ def callerStep (lock : Option Tid) (closedEvent loopAlive : Bool) (i : Nat) (c :
       if closedEvent then some ({ c with pc := .rel }, lock) else some ({ c with pc := .chk1 }, lock)
     | .chk1 =>
       if loopAlive then some ({ c with pc := .chk2 }, lock)
-      else if op.isClose then some ({ c with pc := .relExc }, lock)
+      else if op.isClose then some ({ c with pc := .rel }, lock)     -- _shutdown: `except StateError: pass`
       else some (finish c op .state, lock)
     | .chk2 =>
       if loopAlive then some ({ c with pc := .submit }, lock)
-      else if op.isClose then some ({ c with pc := .relExc }, lock)
+      else if op.isClose then some ({ c with pc := .rel }, lock)
       else some (finish c op .state, lock)
     | .submit => some ({ c with pc := .wait, job := .submitted op.jobKind }, lock)
     | .wait =>
@@ -218,9 +216,12 @@ def callerStep (lock : Option Tid) (closedEvent loopAlive : Bool) (i : Nat) (c :
       | _ =>
         match c.job with
         | .done o => if op.isClose then some ({ c with pc := .rel, job := .none }, lock) else some (finish c op o, lock)
-        | _ => none                                           -- future.result(None) blocks
+        | _ =>
+          -- _wait_for: the future is not done; once the loop thread is gone: future.cancel(); raise StateError
+          if loopAlive then none
+          else if op.isClose then some ({ c with pc := .rel, job := .none }, lock)
+          else some (finish c op .state, lock)
     | .rel => some ({ c with pc := .waitEvt }, none)
-    | .relExc => some (finish c op .state, none)
     | .waitEvt => if closedEvent then some ({ c with pc := .join }, lock) else none
     | .join => if loopAlive then none else some (finish c op .ok, lock)
 
@@ -277,16 +278,11 @@ def stepClose (s : St) : Option St :=
         | some j => updAt s.callers j (resolveBlocked .eoq)
         | none => s.callers
       some { s with callers := cs, recvTask := none, closePc := .begun }
-  | .begun => some { s with closePc := .wantLock }
-  | .wantLock =>
-    match s.lock with
-    | none => some { s with closePc := .haveLock, lock := some .loop }
-    | some _ => none
-  | .haveLock =>
-    if s.closedEvent then some { s with closePc := .eventSet }
+  | .begun => some { s with closePc := .inCb }
+  | .inCb =>
+    if s.closedEvent then some { s with closePc := .done }
     else some { s with closePc := .stopCalled, stopReq := true }
-  | .stopCalled => some { s with closePc := .eventSet, closedEvent := true }
-  | .eventSet => some { s with closePc := .done, lock := none }
+  | .stopCalled => some { s with closePc := .done, closedEvent := true }
   | .done => none
 
 def stepStop (s : St) : Option St :=
@@ -361,20 +357,15 @@ def legitWait (s : St) (c : Caller) : Bool :=
   | .blocked _ => c.pc == .wait && !s.sessClosed && s.loopAlive
   | _ => false
 
-/-! ### the region where the known defects live (used as explicit hypotheses of the `_partial` theorems)
+/-! ### `okStep`: a step that does not put a second `receive_msg` to wait while one is already waiting
 
-`okStep s l` holds when the step `l` taken in `s` is none of:
-* a caller handing its coroutine to the loop after `AsyncSession.close` has begun (submit-after-stop and the
-  close_lock deadlock both need this);
-* a `receive_msg` coroutine going to wait while another one is already waiting (single `_recv_task` slot). -/
+Since the library fixes no run of the model hangs any more and the no-hang theorems need no such hypothesis.  The
+predicate only serves the `safe` walk of the driver and the theorem that, inside it, a blocked receive is always the one
+in the queue's single `_recv_task` slot (so closing answers it with EndOfQueue rather than StateError). -/
 def anyBlocked (cs : List Caller) : Bool :=
   cs.any fun c => match c.job with | .blocked _ => true | _ => false
 
 def okStep (s : St) : Label → Bool
-  | .caller i =>
-    match s.callers[i]? with
-    | some c => !(c.pc == .submit && s.sessClosed)
-    | none => true
   | .job i =>
     match s.callers[i]? with
     | some c => !(c.job == .submitted .recv && s.queue == 0 && !s.sessClosed && anyBlocked s.callers)
@@ -407,21 +398,8 @@ def connect : LoginEv → Bool × Bool
 /-! ### deterministic pseudo-random walk (for the driver: schedules are generated from the model) -/
 def lcg (x : Nat) : Nat := (x * 6364136223846793005 + 1442695040888963407) % 18446744073709551616
 
-/-- scheduling preference of the `safe` walk: stay out of the window between "close began" and "loop thread exited" -/
-def inWindow (c : Caller) : Bool :=
-  match c.pc with
-  | .acq | .chkEvt | .chk1 | .chk2 | .submit => true
-  | _ => false
-
-def prefer (s : St) (l : Label) : Bool :=
-  okStep s l &&
-  match l with
-  | .caller i =>
-    match s.callers[i]? with
-    | some c => !((c.pc == .chk1 || c.pc == .chk2 || c.pc == .chkEvt) && s.sessClosed && s.loopAlive)
-    | none => true
-  | .close => !(s.closePc == .spawned && s.callers.any inWindow)
-  | _ => true
+/-- scheduling preference of the `safe` walk -/
+def prefer (s : St) (l : Label) : Bool := okStep s l
 
 /-- a maximal run: repeatedly take a pseudo-randomly chosen enabled label
 (`safe`: a preferred label whenever one is enabled) -/
